@@ -317,6 +317,35 @@ Section Main.
   Qed.
 End Main.
 
+(* ---------- the range hypothesis is needed: a detector that answers the LAST index of a slice makes the loop push the
+   same range again for ever (what lmethod.multi_knee does with t2 = 2 on a curved 3-point slice, and menger.multi_knee
+   with t2 = 0 on a 1-point slice) ---------- *)
+Section Diverge.
+  Context {N : Num}.
+  Variable cost : mk_cost.
+  Variable straight : nat -> nat -> T N.
+  Variable knee1 : nat -> nat -> option nat.
+  Variable t1 : T N.
+  Variable t2 : nat.
+
+  Lemma mk_loop_last_index_diverges l r k :
+    mk_step cost straight knee1 t1 t2 l r = Some k -> k + 1 = r - l ->
+    forall fuel st ks tr, mk_loop cost straight knee1 t1 t2 fuel ((l, r) :: st) ks tr = None.
+  Proof.
+    intros Hs Hk fuel. induction fuel as [fuel IH] using lt_wf_ind. intros st ks tr.
+    destruct fuel as [|f]; [reflexivity|]. cbn [mk_loop]. rewrite Hs.
+    replace (k + l + 1) with r by lia.
+    destruct f as [|f']; [reflexivity|]. cbn [mk_loop].
+    rewrite (step_empty cost straight knee1 t1 t2 r r) by lia.
+    apply IH. lia.
+  Qed.
+  Theorem mk_last_index_diverges n k :
+    mk_step cost straight knee1 t1 t2 0 n = Some k -> k + 1 = n -> multi_knee cost straight knee1 t1 t2 n = None.
+  Proof.
+    intros Hs Hk. unfold multi_knee. rewrite (mk_loop_last_index_diverges 0 n k Hs); [reflexivity|lia].
+  Qed.
+End Diverge.
+
 (* ---------- a concrete oracle valuation meeting the hypothesis (non-vacuity; used by Props/C02.v) ---------- *)
 Definition ex_knee1 (l r : nat) : option nat := if 3 <? r - l then Some ((r - l) / 2) else None.
 Lemma ex_knee1_in_range n : knee_in_range ex_knee1 3 1 n.
